@@ -392,6 +392,9 @@ func (r *Reader) ReadLine() (*Line, error) {
 		n, err := r.R.Read(tmp)
 		r.buf = append(r.buf, tmp[:n]...)
 		if err != nil {
+			if te, ok := err.(interface{ Timeout() bool }); ok && te.Timeout() && n == 0 {
+				return nil, err // a read deadline is not the end of the stream
+			}
 			r.eof, r.err = true, err
 		}
 	}
